@@ -13,7 +13,7 @@ package mempool
 //   "test": the package's own test configuration (mock account state of stub.go),
 //   "real": testConfig=false, the pool reads a real state.ChainStateDB (memory db); block
 //           notifications carry real state roots, parent hashes and transactions (exercises
-//           setStateDB and the dirty-account path).
+//           setStateDB: child of the pool's best block = dirty-account scan, any other block = full scan).
 // Pair schedules (deterministic concurrency, verif_mempool_pairs_test.go): for ordered pairs of calls of the graph the
 // harness holds the pool lock until both calls are queued at it; the outcome must be one of the two sequential ones.
 // Concurrent part (direction B): goroutines issue put / block arrival / get / removeTx / evict /
@@ -340,7 +340,8 @@ func (e *mpEnv) absTx(tx types.Transaction) (aTx, bool) {
 	return a, ok
 }
 
-// block builds the notification for "the state view becomes ch; full: the block extends the pool's best block;
+// block builds the notification for "the state view becomes ch; full: the block is NOT a child of the pool's best
+// block (every list is scanned), else it extends it (only the named accounts are scanned);
 // named: the accounts that have transactions in the block".
 func (e *mpEnv) block(ch map[string]aSt, full bool, named []string) (*types.Block, error) {
 	body := &types.BlockBody{}
@@ -357,11 +358,13 @@ func (e *mpEnv) block(ch map[string]aSt, full bool, named []string) (*types.Bloc
 		return nil, err
 	}
 	e.blockNo++
+	// (setStateDB as repaired by f307abce: a child of the pool's best block gets the dirty-account scan, any other
+	// block the scan of every list)
 	var prev []byte
 	if full {
-		prev = append([]byte{}, e.mp.bestBlockID[:]...)
+		prev = e.freshBlockHash() // some block that is not the pool's best block (branch switch, corrective announcement)
 	} else {
-		prev = e.freshBlockHash() // some block that is not the pool's best block (first block of another branch)
+		prev = append([]byte{}, e.mp.bestBlockID[:]...)
 	}
 	return &types.Block{Hash: e.freshBlockHash(), Header: &types.BlockHeader{ChainID: e.cid, BlockNo: e.blockNo,
 		BlocksRootHash: root, PrevBlockHash: prev}, Body: body}, nil
@@ -591,6 +594,10 @@ func checkPredicates(p projection, chain map[string]aSt, notified bool) (string,
 			if notified && tx.Nonce <= chain[a].Nonce {
 				return "stale-after-block", fmt.Sprintf("list of %s holds nonce %d, account nonce is %d", a, tx.Nonce, chain[a].Nonce)
 			}
+		}
+		if st, ok := chain[a]; ok && notified && l.Base.Nonce != st.Nonce {
+			// (BaseNonceSynced: what get offers starts at state+1 and nothing due is held aside)
+			return "base-not-synced", fmt.Sprintf("list of %s is based on nonce %d, the account nonce is %d (list %v, ready=%d)", a, l.Base.Nonce, st.Nonce, l.List, l.Ready)
 		}
 		if l.Ready < 0 || l.Ready > len(l.List) {
 			return "ready-out-of-range", fmt.Sprintf("list of %s: ready=%d len=%d", a, l.Ready, len(l.List))
@@ -1143,7 +1150,8 @@ func concurrentRun(res *verifkit.Result, e *mpEnv, cp concParams, run int) []map
 					st.Nonce = nn
 					full := true
 					var dirty []string
-					if e.backend == "real" && rng.Intn(3) == 0 {
+					// a child of the pool's best block (dirty-account scan) never takes a nonce back
+					if e.backend == "real" && rng.Intn(3) == 0 && st.Nonce >= cur[a].Nonce {
 						full = false
 						for _, d := range cp.Accounts {
 							if d == a && st.Nonce > cur[a].Nonce || rng.Intn(2) == 0 {
